@@ -60,6 +60,17 @@ pub fn install_quiet_panic_hook() {
             eprintln!("vh: panic at {loc}: {msg}");
         }
         LAST_PANIC.with(|p| *p.borrow_mut() = Some(format!("{loc}: {msg}")));
+        if !(in_subject || tokio_worker) {
+            // A failure of the harness itself (typically: a fault-free operation needed to set a
+            // scenario up did not work). If a violation has already been reported the verdict
+            // stands; otherwise this is a machinery error, never a verdict.
+            if crate::report::VIOLATIONS_PRINTED.load(std::sync::atomic::Ordering::SeqCst) > 0 {
+                eprintln!("vh: stopping early: the harness could not go on after the violation(s) above");
+                std::process::exit(1);
+            }
+            eprintln!("vh: machinery error, not a verdict");
+            std::process::exit(2);
+        }
     }));
 }
 
